@@ -26,31 +26,46 @@ Definition set_stmt (t : ty) (fs : list val) (d : data) : data :=
    later occurrences of a metavariable): structural equality where positions count by
    validity only, and nil and empty are the same for the three "..."-capable slice types *)
 Fixpoint eqvb (p t : val) {struct p} : bool :=
-  match p, t with
-  | Nil a, Nil b => N.eqb a b
-  | Nil a, Ptr tb _ => N.eqb a T_P_ast_Object
-  | Nil a, Slice b [] => N.eqb a b && dots_capable a
-  | Pos a, Pos b => Bool.eqb a b
-  | Atom ta a, Atom tb b => N.eqb ta tb && N.eqb a b
-  | Ptr ta p', Ptr tb t' => N.eqb ta T_P_ast_Object || eqvb p' t'
-  | Ptr ta _, Nil b => N.eqb ta T_P_ast_Object      (* *ast.Object: never compared *)
-  | Iface ta p', Iface tb t' => eqvb p' t'
-  | Struct ta ps, Struct tb ts => N.eqb ta tb &&
-      (fix go (ps ts : list val) {struct ps} : bool :=
-         match ps, ts with
-         | [], [] => true
-         | p :: ps', t :: ts' => eqvb p t && go ps' ts'
-         | _, _ => false
-         end) ps ts
-  | Slice ta ps, Slice tb ts =>
-      (fix go (ps ts : list val) {struct ps} : bool :=
-         match ps, ts with
-         | [], [] => true
-         | p :: ps', t :: ts' => eqvb p t && go ps' ts'
-         | _, _ => false
-         end) ps ts
-  | Slice ta [], Nil b => true
-  | _, _ => false
+  match p with
+  | Nil a =>
+      match t with
+      | Nil b => N.eqb a b
+      | Ptr tb _ => N.eqb a T_P_ast_Object          (* *ast.Object: never compared *)
+      | Slice b [] => N.eqb a b && dots_capable a
+      | _ => false
+      end
+  | Pos a => match t with Pos b => Bool.eqb a b | _ => false end
+  | Atom ta a => match t with Atom tb b => N.eqb ta tb && N.eqb a b | _ => false end
+  | Ptr ta p' =>
+      match t with
+      | Ptr tb t' => N.eqb ta T_P_ast_Object || eqvb p' t'
+      | Nil b => N.eqb ta T_P_ast_Object
+      | _ => false
+      end
+  | Iface ta p' => match t with Iface tb t' => eqvb p' t' | _ => false end
+  | Struct ta ps =>
+      match t with
+      | Struct tb ts => N.eqb ta tb &&
+          (fix go (ps ts : list val) {struct ps} : bool :=
+             match ps, ts with
+             | [], [] => true
+             | p :: ps', t :: ts' => eqvb p t && go ps' ts'
+             | _, _ => false
+             end) ps ts
+      | _ => false
+      end
+  | Slice ta ps =>
+      match t with
+      | Slice tb ts =>
+          (fix go (ps ts : list val) {struct ps} : bool :=
+             match ps, ts with
+             | [], [] => true
+             | p :: ps', t :: ts' => eqvb p t && go ps' ts'
+             | _, _ => false
+             end) ps ts
+      | Nil b => match ps with [] => true | _ => false end
+      | _ => false
+      end
   end.
 
 Section Match.
@@ -75,36 +90,27 @@ Section Match.
 
   Fixpoint mtch (p t : val) (d : data) {struct p} : option data :=
     match p with
-    (* ---- *ast.Ident: metavariable, or an ordinary identifier ---- *)
-    | Ptr tp (Struct sp [ppos; Atom ta name; pobj]) =>
-        match (if N.eqb tp T_P_ast_Ident then mk name else None) with
-        | Some k =>
-            if kind_ok k t then
-              match assoc name (d_mv d) with
-              | Some c => if eqvb c t then Some d else None     (* data of the sub-match discarded *)
-              | None => Some (push_mv name t d)
-              end
-            else None
-        | None =>
-            match t with
-            | Ptr _ (Struct st [tpos; Atom tb b; tobj]) =>
-                if N.eqb sp st && N.eqb ta tb && N.eqb name b then
-                  match mtch ppos tpos d with
-                  | Some d1 => mtch pobj tobj d1
-                  | None => None
-                  end
-                else None
-            | _ => None
-            end
-        end
     | Ptr tp ps =>
+        if N.eqb tp T_P_ast_Object then Some d else      (* *ast.Object always matches *)
         let generic := fun (_ : unit) =>
-          if N.eqb tp T_P_ast_Object then Some d else     (* *ast.Object always matches *)
           match t with
           | Ptr _ ts => mtch ps ts d
           | _ => None
           end in
         match ps with
+        (* ---- *ast.Ident: metavariable, or an ordinary identifier ---- *)
+        | Struct sp [ppos; Atom ta name; pobj] =>
+            match (if N.eqb tp T_P_ast_Ident then mk name else None) with
+            | Some k =>
+                if kind_ok k t then
+                  match assoc name (d_mv d) with
+                  | Some c => if eqvb c t then Some d else None     (* data of the sub-match discarded *)
+                  | None => Some (push_mv name t d)
+                  end
+                else None
+            | None => generic tt
+            end
+        (* ---- "for ... {" ---- *)
         | Struct _ [_; Nil _; Iface _ c; Nil _; body] =>
             match (if N.eqb tp T_P_ast_ForStmt then is_dots c else None) with
             | Some i =>
